@@ -7,21 +7,6 @@ import Gzx.Obligations.K04bDiv
 namespace Gzx.Obligations.K04bEnc
 open Gzx Gzx.GoM Gzx.GoVal Gzx.RS Gzx.K04bTie Gzx.Obligations.K04b Gzx.Obligations.K04bPoly Gzx.Obligations.K04bDiv
 
-theorem mulRaw_error {F : GF.GF} {b : List Nat} : ∀ (a : List Nat) (e : Fault), mulRaw F a b = .error e → IsPanic e := by
-  intro a
-  induction a with
-  | nil => intro e h; simp only [mulRaw] at h; cases h
-  | cons a0 as ih =>
-    intro e h
-    simp only [mulRaw, bind, Except.bind] at h
-    cases hrow : b.mapM (fun bj => F.mul a0 bj) with
-    | error e1 => simp only [hrow] at h; cases h; exact mapM_error (fun x e h => mul_error h) _ _ hrow
-    | ok row =>
-      simp only [hrow] at h
-      cases hrest : mulRaw F as b with
-      | error e2 => simp only [hrest] at h; cases h; exact ih _ hrest
-      | ok rest => simp only [hrest] at h; cases h
-
 when_kernel Gzx.Gen.K04b.polyMultiply in
 /-- `Multiply(other)` = the model's `multiply`: the zero polynomial if an operand is zero, otherwise the coefficient double
     loop `product[i+j] ^= a_i * b_j` normalised by `NewGenericGFPoly` -/
@@ -89,5 +74,104 @@ theorem k_polyMultiply_eq (F : GF.GF) (hF : TablesOK F) (p q : List Nat) (hp : p
           simp only [tryC_ok]
           rw [setIdx_words _ _ _ (i + j) (v ^^^ m) (by omega) (by rfl)]
           cases Bits.setWord t (i + j) (v ^^^ m) <;> rfl
+
+
+/-! ### ReedSolomonEncoder.buildGenerator -/
+
+/-- Go `[]*GenericGFPoly` contents of a model cache -/
+abbrev polys (c : List Poly) : List (List Int) := c.map ints
+
+/-- embedding of the cache loop's state -/
+def cacheSt (t : List Poly × Poly) : List (List Int) × List Int := (polys t.1, ints t.2)
+
+theorem idxL_polys (c : List Poly) (e : Int) (n : Nat) (h : e = n) :
+    GoM.idxL (polys c) e = match c[n]? with | some v => .ok (ints v) | none => .error oob := by
+  subst h
+  unfold GoM.idxL
+  have : ¬ ((n : Int) < 0) := by omega
+  simp only [this, if_false, Int.toNat_natCast, polys, List.getElem?_map]
+  cases c[n]? <;> rfl
+
+theorem lenL_polys (c : List Poly) : GoM.lenL (polys c) = (c.length : Int) := by simp [GoM.lenL, polys]
+
+theorem expAt_error {F : GF.GF} {i : Nat} {e : Fault} (h : F.expAt i = .error e) : IsPanic e := gfidx_error h
+
+when_kernel Gzx.Gen.K04b.encBuildGenerator in
+/-- `buildGenerator(degree)` on an encoder whose cache holds the generators g_0 … g_{n-1}: the result is the model's
+    `buildGenerator degree` (the recursion the cache memoises) and the cache afterwards again holds generators only; a panic of
+    the recursion (exponent outside the table) is the same panic -/
+theorem k_encBuildGenerator_eq (F : GF.GF) (hF : TablesOK F) (cache : List Poly) (hc : CacheOK F cache) (degree : Nat) :
+    match buildGenerator F degree with
+    | .ok g => ∃ cache', CacheOK F cache' ∧
+        Gen.K04b.encBuildGenerator (fieldRec F) (polys cache) degree = .ok (ints g, polys cache')
+    | .error e => Gen.K04b.encBuildGenerator (fieldRec F) (polys cache) degree = .error e := by
+  obtain ⟨hne, hgen⟩ := hc
+  have hlen : 0 < cache.length := List.length_pos_iff.mpr hne
+  simp only [Gen.K04b.encBuildGenerator, lenL_polys, fieldRec_base]
+  by_cases hge : degree ≥ cache.length
+  · have hd : decide ((degree : Int) ≥ (cache.length : Int)) = true := by apply decide_eq_true; omega
+    simp only [hd, if_true]
+    rw [idxL_polys _ _ (cache.length - 1) (by omega), List.getElem?_eq_getElem (by omega)]
+    simp only [tryC_ok]
+    rw [loop_range_inv cacheSt (fun t => t.2 ≠ []) (cacheStep F) cache.length (degree + 1 - cache.length)
+      (cache, cache[cache.length - 1])]
+    · have hrun := cache_run (ρ := List Int × List (List Int)) F (degree + 1 - cache.length) cache.length cache
+        cache[cache.length - 1] (by omega) rfl hgen (hgen _ (by omega)) (by omega)
+      rw [show cache.length + (degree + 1 - cache.length) - 1 = degree by omega] at hrun
+      cases hbg : buildGenerator F degree with
+      | error e => rw [hbg] at hrun; simp only [] at hrun ⊢; rw [hrun]; rfl
+      | ok g =>
+        rw [hbg] at hrun
+        obtain ⟨cache', h1, h2, h3⟩ := hrun
+        have hne' : cache' ≠ [] := by intro h; subst h; simp at h2; omega
+        refine ⟨cache', ⟨hne', h3⟩, ?_⟩
+        rw [h1]
+        simp only [mapS_next, cacheSt, next_thenC, next_thenR]
+        rw [idxL_polys _ _ degree rfl, List.getElem?_eq_getElem (by omega)]
+        have := h3 degree (by omega)
+        rw [hbg] at this
+        cases this
+        rfl
+    · rfl
+    · rw [tripUp_one]; omega
+    · rfl
+    · exact buildGenerator_ne F _ _ (hgen _ (by omega))
+    · intro d t t' ht hstep
+      simp only [cacheStep] at hstep
+      cases hg : genStage F d t.2 with
+      | error e => simp only [hg] at hstep; cases hstep
+      | ok g =>
+        simp only [hg] at hstep
+        cases hstep
+        simp only [genStage, bind, Except.bind] at hg
+        cases he : F.expAt (d - 1 + F.base) with
+        | error e => simp only [he] at hg; cases hg
+        | ok ev =>
+          simp only [he] at hg
+          cases hf : mkPoly [1, ev] with
+          | error e => simp only [hf] at hg; cases hg
+          | ok f => simp only [hf] at hg; exact multiply_ne hg
+    · intro d hd1 hd2 t ht
+      simp only [cacheSt, cacheStep, genStage, bind, Except.bind]
+      rw [k_gfExp_eq' F _ (d - 1 + F.base) (by omega)]
+      cases he : F.expAt (d - 1 + F.base) with
+      | error e => rfl
+      | ok ev =>
+        simp only [Except.map, tryC_ok, Int.ofNat_eq_natCast]
+        rw [show ([1, (ev : Int)] : List Int) = ints [1, ev] from rfl, k_newPoly_eq]
+        have hmk : mkPoly [1, ev] = .ok [1, ev] := by
+          unfold mkPoly normalize; rfl
+        rw [hmk]
+        simp only [expE_ok, tryC_ok]
+        rw [k_polyMultiply_eq F hF t.2 [1, ev] ht (by simp)]
+        cases hm : multiply F t.2 [1, ev] with
+        | error e => rw [expE_of_panic _ _ (multiply_error ht (by simp) hm)]; rfl
+        | ok g => simp [polys, cacheSt]
+  · have hd : decide ((degree : Int) ≥ (cache.length : Int)) = false := by apply decide_eq_false; omega
+    simp only [hd, Bool.false_eq_true, if_false, next_thenR]
+    rw [hgen degree (by omega)]
+    refine ⟨cache, ⟨hne, hgen⟩, ?_⟩
+    rw [idxL_polys _ _ degree rfl, List.getElem?_eq_getElem (by omega)]
+    rfl
 
 end Gzx.Obligations.K04bEnc
